@@ -35,7 +35,8 @@ theorem overtop_bounds (t p z : α) (b : Nat) (hp : 0 ≤ p) (hz : 0 ≤ z) :
   · exact ⟨by simp only []; linarith, by simpa using hz, by simp, fun _ => by simp⟩
   · simp only []; exact ⟨le_refl _, hp, not_lt.mp h, fun h0 => absurd h0 (lt_irrefl _)⟩
 
-/-- inversion of a successful surface split into its five branches -/
+/-- inversion of a successful surface split into its five branches; the last two (the no-bunds
+block) are taken without bunds *and* with bunds not higher than 1 mm -/
 theorem infSurface_cases {k? : Option α} {pond infl zBund : α} {bunds : Bool} {s : Surf α}
     (h : infSurface k? pond infl bunds zBund = .ok s) :
     (bunds = true ∧ 0.001 < zBund ∧ 0 < infl + pond ∧ ∃ k, k? = some k ∧ k < infl + pond ∧
@@ -44,46 +45,71 @@ theorem infSurface_cases {k? : Option α} {pond infl zBund : α} {bunds : Bool} 
         s = overtop (infl + pond) 0 zBund 2) ∨
     (bunds = true ∧ 0.001 < zBund ∧ ¬ 0 < infl + pond ∧
         s = { toStore := 0, runoffIni := 0, pond := pond, lost := infl, branch := 5 }) ∨
-    (bunds = false ∧ ∃ k, k? = some k ∧ k < infl ∧
-        s = { toStore := k, runoffIni := infl - k + pond, pond := 0, lost := 0, branch := 6 }) ∨
-    (bunds = false ∧ ∃ k, k? = some k ∧ ¬ k < infl ∧
-        s = { toStore := infl, runoffIni := 0 + pond, pond := 0, lost := 0, branch := 7 }) := by
+    ((bunds = false ∨ zBund ≤ 0.001) ∧ ∃ k, k? = some k ∧ k < infl ∧
+        s = { toStore := k, runoffIni := infl - k + pond, pond := 0, lost := 0,
+              branch := if bunds then 8 else 6 }) ∨
+    ((bunds = false ∨ zBund ≤ 0.001) ∧ ∃ k, k? = some k ∧ ¬ k < infl ∧
+        s = { toStore := infl, runoffIni := 0 + pond, pond := 0, lost := 0,
+              branch := (if bunds then 8 else 6) + 1 }) := by
   unfold infSurface at h
-  by_cases h1 : bunds = true
-  · simp only [h1, if_true] at h
-    by_cases h2 : (0.001 : α) < zBund
-    · simp only [h2, if_true] at h
-      by_cases h3 : 0 < infl + pond
-      · simp only [h3, if_true] at h
-        cases k? with
-        | none => simp at h
-        | some k =>
-          simp only [] at h
-          by_cases h4 : k < infl + pond
-          · simp only [h4, if_true] at h
-            injection h with h
-            exact Or.inl ⟨h1, h2, h3, k, rfl, h4, h.symm⟩
-          · simp only [h4, if_false] at h
-            injection h with h
-            exact Or.inr (Or.inl ⟨h1, h2, h3, k, rfl, h4, h.symm⟩)
-      · simp only [h3, if_false] at h
-        injection h with h
-        exact Or.inr (Or.inr (Or.inl ⟨h1, h2, h3, h.symm⟩))
-    · simp only [h2, if_false] at h
+  by_cases h1 : bunds = true ∧ (0.001 : α) < zBund
+  · simp only [h1, and_self, if_true] at h
+    by_cases h3 : 0 < infl + pond
+    · simp only [h3, if_true] at h
+      cases k? with
+      | none => simp at h
+      | some k =>
+        simp only [] at h
+        by_cases h4 : k < infl + pond
+        · simp only [h4, if_true] at h
+          injection h with h
+          exact Or.inl ⟨h1.1, h1.2, h3, k, rfl, h4, h.symm⟩
+        · simp only [h4, if_false] at h
+          injection h with h
+          exact Or.inr (Or.inl ⟨h1.1, h1.2, h3, k, rfl, h4, h.symm⟩)
+    · simp only [h3, if_false] at h
+      injection h with h
+      exact Or.inr (Or.inr (Or.inl ⟨h1.1, h1.2, h3, h.symm⟩))
+  · rw [if_neg h1] at h
+    by_cases h2 : bunds = false ∨ zBund ≤ 0.001
+    · rw [if_pos h2] at h
+      unfold noBunds at h
+      cases k? with
+      | none => simp at h
+      | some k =>
+        simp only [] at h
+        by_cases h4 : k < infl
+        · simp only [h4, if_true] at h
+          injection h with h
+          exact Or.inr (Or.inr (Or.inr (Or.inl ⟨h2, k, rfl, h4, h.symm⟩)))
+        · simp only [h4, if_false] at h
+          injection h with h
+          exact Or.inr (Or.inr (Or.inr (Or.inr ⟨h2, k, rfl, h4, h.symm⟩)))
+    · rw [if_neg h2] at h
       simp at h
-  · have h1' : bunds = false := by simpa using h1
-    simp only [h1', Bool.false_eq_true, if_false] at h
+
+/-- in an ordered field one of the two guards always holds: the `UnboundLocalError` of the
+unfixed code (and the `NaN` corner of the `Float` run) does not exist -/
+theorem infSurface_ne_unbound (k? : Option α) (pond infl zBund : α) (bunds : Bool) :
+    infSurface k? pond infl bunds zBund ≠ .error "E:unbound" := by
+  unfold infSurface
+  by_cases h1 : bunds = true ∧ (0.001 : α) < zBund
+  · simp only [h1, and_self, if_true]
+    split_ifs
+    · cases k? with
+      | none => simp
+      | some k => simp only []; split_ifs <;> simp
+    · simp
+  · rw [if_neg h1]
+    have h2 : bunds = false ∨ zBund ≤ 0.001 := by
+      cases bunds
+      · exact Or.inl rfl
+      · exact Or.inr (not_lt.mp (fun hz => h1 ⟨rfl, hz⟩))
+    rw [if_pos h2]
+    unfold noBunds
     cases k? with
-    | none => simp at h
-    | some k =>
-      simp only [] at h
-      by_cases h4 : k < infl
-      · simp only [h4, if_true] at h
-        injection h with h
-        exact Or.inr (Or.inr (Or.inr (Or.inl ⟨h1', k, rfl, h4, h.symm⟩)))
-      · simp only [h4, if_false] at h
-        injection h with h
-        exact Or.inr (Or.inr (Or.inr (Or.inr ⟨h1', k, rfl, h4, h.symm⟩)))
+    | none => simp
+    | some k => simp only []; split_ifs <;> simp
 
 /-- water balance of the surface split (with the ghost `lost`) -/
 theorem infSurface_balance {k? : Option α} {pond infl zBund : α} {bunds : Bool} {s : Surf α}
@@ -498,18 +524,21 @@ theorem bundRestore_bounds (p1 ri r1 z : α) (b : Bool) (hr : ri ≤ r1) :
     (p1 ≤ z → p1 ≤ (bundRestore p1 ri r1 b z).1) ∧ ri ≤ (bundRestore p1 ri r1 b z).2 ∧
     (p1 ≤ z → (bundRestore p1 ri r1 b z).2 ≤ r1) ∧ (p1 ≤ z → (bundRestore p1 ri r1 b z).1 ≤ z) ∧
     (b = true → 0.001 < z → ri < (bundRestore p1 ri r1 b z).2 → (bundRestore p1 ri r1 b z).1 = z) ∧
-    (b = false → (bundRestore p1 ri r1 b z).1 = p1 ∧ (bundRestore p1 ri r1 b z).2 = r1) := by
+    (b = false ∨ z ≤ 0.001 →
+      (bundRestore p1 ri r1 b z).1 = p1 ∧ (bundRestore p1 ri r1 b z).2 = r1) := by
+  have hno : (b = false ∨ z ≤ 0.001) → ¬ (ri < r1 ∧ b = true ∧ 0.001 < z) := by
+    rintro (hb | hz) ⟨-, hb', hz'⟩
+    · rw [hb] at hb'; simp at hb'
+    · exact absurd hz' (not_lt.mpr hz)
   unfold bundRestore; simp only []
   split_ifs with h1 h2
   · simp only []
     have hz0 : (0:α) ≤ z := le_trans (by norm_num) h1.2.2.le
     refine ⟨fun _ => hz0, fun h => h, by linarith, fun _ => by linarith, fun _ => le_refl _,
-      fun _ _ _ => by simp, ?_⟩
-    intro hb; rw [hb] at h1; simp at h1
+      fun _ _ _ => by simp, fun hb => absurd h1 (hno hb)⟩
   · simp only []
     refine ⟨fun h => by linarith, fun _ => by linarith, le_refl _, fun _ => hr, fun _ => not_lt.mp h2,
-      fun _ _ h => absurd h (lt_irrefl _), ?_⟩
-    intro hb; rw [hb] at h1; simp at h1
+      fun _ _ h => absurd h (lt_irrefl _), fun hb => absurd h1 (hno hb)⟩
   · simp only []
     refine ⟨fun h => h, fun _ => le_refl _, hr, fun _ => le_refl _, fun h => h, ?_, fun _ => by simp⟩
     intro hb hz hlt
@@ -521,38 +550,42 @@ theorem infSurface_facts {k? : Option α} {pond infl zBund : α} {bunds : Bool} 
     (h : infSurface k? pond infl bunds zBund = .ok s) (hI : 0 ≤ infl) (hp : 0 ≤ pond)
     (hk : ∀ k, k? = some k → 0 ≤ k) :
     s.lost = 0 ∧ 0 ≤ s.toStore ∧ 0 ≤ s.runoffIni ∧ 0 ≤ s.pond ∧
-    (bunds = true → 0.001 < zBund ∧ (pond ≤ zBund → s.pond ≤ zBund) ∧
+    (bunds = true → 0.001 < zBund → (pond ≤ zBund → s.pond ≤ zBund) ∧
         (0 < s.runoffIni → s.pond = zBund)) ∧
-    (bunds = false → s.pond = 0) ∧
+    (bunds = false ∨ zBund ≤ 0.001 → s.pond = 0) ∧
     (infl = 0 → pond = 0 → s.toStore = 0 ∧ s.runoffIni = 0 ∧ s.pond = 0) := by
+  have hno : bunds = true → 0.001 < zBund → ¬ (bunds = false ∨ zBund ≤ 0.001) := by
+    rintro hb hz (hb' | hz')
+    · rw [hb] at hb'; simp at hb'
+    · exact absurd hz (not_lt.mpr hz')
   rcases infSurface_cases h with ⟨hb, hz, h3, k, hk?, h4, rfl⟩ | ⟨hb, hz, h3, k, hk?, h4, rfl⟩ |
     ⟨hb, hz, h3, rfl⟩ | ⟨hb, k, hk?, h4, rfl⟩ | ⟨hb, k, hk?, h4, rfl⟩
   · have hz0 : 0 ≤ zBund := le_trans (by norm_num) hz.le
     have ho := overtop_bounds k (infl + pond - k) zBund 1 (by linarith) hz0
     rw [overtop_toStore, overtop_lost]
-    refine ⟨rfl, hk k hk?, ho.1, ho.2.1, fun _ => ⟨hz, fun _ => ho.2.2.1, ho.2.2.2⟩, ?_, ?_⟩
-    · intro hb'; rw [hb] at hb'; simp at hb'
-    · intro h1 h2; exfalso; rw [h1, h2] at h3; simp at h3
+    refine ⟨rfl, hk k hk?, ho.1, ho.2.1, fun _ _ => ⟨fun _ => ho.2.2.1, ho.2.2.2⟩,
+      fun hb' => absurd hb' (hno hb hz), ?_⟩
+    intro h1 h2; exfalso; rw [h1, h2] at h3; simp at h3
   · have hz0 : 0 ≤ zBund := le_trans (by norm_num) hz.le
     have ho := overtop_bounds (infl + pond) 0 zBund 2 (le_refl _) hz0
     rw [overtop_toStore, overtop_lost]
-    refine ⟨rfl, h3.le, ho.1, ho.2.1, fun _ => ⟨hz, fun _ => ho.2.2.1, ho.2.2.2⟩, ?_, ?_⟩
-    · intro hb'; rw [hb] at hb'; simp at hb'
-    · intro h1 h2; exfalso; rw [h1, h2] at h3; simp at h3
+    refine ⟨rfl, h3.le, ho.1, ho.2.1, fun _ _ => ⟨fun _ => ho.2.2.1, ho.2.2.2⟩,
+      fun hb' => absurd hb' (hno hb hz), ?_⟩
+    intro h1 h2; exfalso; rw [h1, h2] at h3; simp at h3
   · have h3' := not_lt.mp h3
     have hI0 : infl = 0 := le_antisymm (by linarith) hI
     simp only []
-    refine ⟨hI0, le_refl _, le_refl _, hp, fun _ => ⟨hz, fun h => h, fun h => absurd h (lt_irrefl _)⟩,
-      ?_, fun _ h2 => ⟨by simp, by simp, h2⟩⟩
-    intro hb'; rw [hb] at hb'; simp at hb'
+    refine ⟨hI0, le_refl _, le_refl _, hp,
+      fun _ _ => ⟨fun h => h, fun h => absurd h (lt_irrefl _)⟩,
+      fun hb' => absurd hb' (hno hb hz), fun _ h2 => ⟨by simp, by simp, h2⟩⟩
   · simp only []
-    refine ⟨by simp, hk k hk?, by linarith, le_refl _, ?_, fun _ => by simp, ?_⟩
-    · intro hb'; rw [hb] at hb'; simp at hb'
-    · intro h1 _; exfalso; have := hk k hk?; rw [h1] at h4; exact absurd h4 (not_lt.mpr this)
+    refine ⟨by simp, hk k hk?, by linarith, le_refl _, fun hb' hz' => absurd hb (hno hb' hz'),
+      fun _ => by simp, ?_⟩
+    intro h1 _; exfalso; have := hk k hk?; rw [h1] at h4; exact absurd h4 (not_lt.mpr this)
   · simp only []
-    refine ⟨by simp, hI, by linarith, le_refl _, ?_, fun _ => by simp, ?_⟩
-    · intro hb'; rw [hb] at hb'; simp at hb'
-    · intro h1 h2; exact ⟨h1, by rw [h2]; simp, by simp⟩
+    refine ⟨by simp, hI, by linarith, le_refl _, fun hb' hz' => absurd hb (hno hb' hz'),
+      fun _ => by simp, ?_⟩
+    intro h1 h2; exact ⟨h1, by rw [h2]; simp, by simp⟩
 
 /-! ### the entry point -/
 
@@ -703,13 +736,13 @@ theorem infiltration_runoff_le
   rw [hl] at hS
   linarith
 
-/-- **4c. Negative reported infiltration** only happens without bunds, when ponded water is
-released (bunds removed), and is bounded by that water. -/
+/-- **4c. Negative reported infiltration** only happens when the no-bunds block runs (no bunds,
+or bunds not higher than 1 mm) and ponded water is released, and is bounded by that water. -/
 theorem infiltration_infl_neg
     (h : infiltration F cells pond infl irr appEff bunds zBund dp0 ro0 gs = .ok out)
     (hinv : ∀ c ∈ cells, c.Inv) (hfl : ∀ c ∈ cells, c.flux ≤ c.c.ksat) (hp : 0 ≤ pond)
-    (hpz : bunds = true → pond ≤ zBund) (hneg : out.infl < 0) :
-    bunds = false ∧ 0 < pond ∧ -out.infl ≤ pond := by
+    (hpz : bunds = true → 0.001 < zBund → pond ≤ zBund) (hneg : out.infl < 0) :
+    (bunds = false ∨ zBund ≤ 0.001) ∧ 0 < pond ∧ -out.infl ≤ pond := by
   have hub := infiltration_runoff_le h hinv hfl hp
   obtain ⟨hI, s, hs, rfl⟩ := infiltration_ok h
   have hk : ∀ c ∈ cells, 0 ≤ c.c.ksat := fun c hc => (hinv c hc).wf.ksat_nn
@@ -725,10 +758,14 @@ theorem infiltration_infl_neg
   simp only [infFinish] at hub hneg ⊢
   rw [hl] at hS
   refine ⟨?_, by linarith, by linarith⟩
-  by_contra hb
-  have hb : bunds = true := by simpa using hb
-  obtain ⟨hz, hle, hfull⟩ := hbt hb
-  have hle := hle (hpz hb)
+  by_contra hcon
+  have hb : bunds = true := by
+    cases bunds
+    · exact absurd (Or.inl rfl) hcon
+    · rfl
+  have hz : 0.001 < zBund := not_le.mp (fun hz => hcon (Or.inr hz))
+  obtain ⟨hle, hfull⟩ := hbt hb hz
+  have hle := hle (hpz hb hz)
   have h1 : (bundRestore s.pond s.runoffIni ((infRun F cells s.toStore).2.2 + s.runoffIni)
       bunds zBund).1 = zBund := by
     by_cases hlt : s.runoffIni < (bundRestore s.pond s.runoffIni
@@ -737,7 +774,7 @@ theorem infiltration_infl_neg
     · have : 0 < s.runoffIni := by linarith [not_lt.mp hlt]
       have hfull := hfull this
       exact le_antisymm (b5 hle) (by have := b2 hle; linarith)
-  have := hpz hb
+  have := hpz hb hz
   linarith
 
 /-- **4d. Dry day**: no intake and nothing ponded → nothing happens. -/
@@ -754,12 +791,12 @@ theorem infiltration_dry
   simp [bundRestore]
 
 /-- **5. Invariant**: `Cell.Inv` is preserved; the ponding depth stays in `[0, zBund]` with bunds
-and is 0 without. -/
+and is 0 without bunds or with bunds not higher than 1 mm. -/
 theorem infiltration_inv
     (h : infiltration F cells pond infl irr appEff bunds zBund dp0 ro0 gs = .ok out)
     (hinv : ∀ c ∈ cells, c.Inv) (hp : 0 ≤ pond) :
     (∀ c ∈ out.cells, c.Inv) ∧ 0 ≤ out.pond ∧ (bunds = true → pond ≤ zBund → out.pond ≤ zBund) ∧
-    (bunds = false → out.pond = 0) := by
+    (bunds = false ∨ zBund ≤ 0.001 → out.pond = 0) := by
   obtain ⟨hI, s, hs, rfl⟩ := infiltration_ok h
   have hk : ∀ c ∈ cells, 0 ≤ c.c.ksat := fun c hc => (hinv c hc).wf.ksat_nn
   obtain ⟨-, -, hri, hsp, hbt, hbf, -⟩ := infSurface_facts hs hI hp (head_ksat_nonneg hk)
@@ -767,9 +804,12 @@ theorem infiltration_inv
   obtain ⟨b1, -, -, -, b5, -, b7⟩ := bundRestore_bounds s.pond s.runoffIni
     ((infRun F cells s.toStore).2.2 + s.runoffIni) zBund bunds (by linarith)
   simp only [infFinish]
-  refine ⟨infRun_inv F cells s.toStore hinv, b1 hsp, fun hb hpz => b5 ((hbt hb).2.1 hpz), ?_⟩
-  intro hb
-  rw [(b7 hb).1, hbf hb]
+  refine ⟨infRun_inv F cells s.toStore hinv, b1 hsp, ?_, fun hb => by rw [(b7 hb).1, hbf hb]⟩
+  intro hb hpz
+  by_cases hz : 0.001 < zBund
+  · exact b5 ((hbt hb hz).1 hpz)
+  · have hlow : bunds = false ∨ zBund ≤ 0.001 := Or.inr (not_lt.mp hz)
+    rw [(b7 hlow).1, hbf hlow]; linarith
 
 /-- **6. Deep percolation added by this process is non-negative** when `FluxOut ≤ Ksat` on entry. -/
 theorem infiltration_deepPerc_nonneg
@@ -782,19 +822,50 @@ theorem infiltration_deepPerc_nonneg
 
 /-! ### success / failure -/
 
-/-- The Python raises `UnboundLocalError` whenever bunds are switched on with `zBund ≤ 0.001`
-(and the intake passes the assertion). -/
-theorem infiltration_unbound (F : Fn α) (cells : List (Cell α)) (pond infl irr appEff zBund dp0 ro0 : α)
-    (gs : Bool) (hz : zBund ≤ 0.001) (hI : 0 ≤ infIntake infl irr appEff gs) :
-    infiltration F cells pond infl irr appEff true zBund dp0 ro0 gs = .error "E:unbound" := by
-  unfold infiltration
-  simp only [hI, if_true, infSurface, not_lt.mpr hz, if_false]
+/-- everything but the ghost branch id -/
+def InfOut.noBranch (o : InfOut α) : InfOut α := { o with branch := 0 }
 
-/-- On a non-empty profile, with a non-negative irrigation term and no "bunds of height ≤ 1 µm",
-the call succeeds. -/
+/-- **Bunds not higher than 1 mm behave exactly like no bunds** (all outputs and ghosts except
+the branch id coincide; errors coincide).  This replaces the `UnboundLocalError` of the unfixed
+code. -/
+theorem infiltration_low_bund (F : Fn α) (cells : List (Cell α))
+    (pond infl irr appEff zBund dp0 ro0 : α) (gs : Bool) (hz : zBund ≤ 0.001) :
+    (infiltration F cells pond infl irr appEff true zBund dp0 ro0 gs).map InfOut.noBranch
+      = (infiltration F cells pond infl irr appEff false zBund dp0 ro0 gs).map InfOut.noBranch := by
+  have hnz : ¬ (0.001 : α) < zBund := not_lt.mpr hz
+  unfold infiltration
+  simp only []
+  by_cases h0 : 0 ≤ infIntake infl irr appEff gs
+  · simp only [h0, if_true, infSurface, hnz, hz, and_false, if_false, or_true, if_true,
+      Bool.false_eq_true, noBunds]
+    cases cells.head?.map (·.c.ksat) with
+    | none => rfl
+    | some k =>
+      simp only []
+      by_cases h4 : k < infIntake infl irr appEff gs
+      · simp [h4, Except.map, InfOut.noBranch, infFinish, bundRestore, hnz]
+      · simp [h4, Except.map, InfOut.noBranch, infFinish, bundRestore, hnz]
+  · simp only [h0, if_false]
+
+/-- the model never reports `E:unbound` in an ordered field -/
+theorem infiltration_ne_unbound (F : Fn α) (cells : List (Cell α))
+    (pond infl irr appEff zBund dp0 ro0 : α) (bunds gs : Bool) :
+    infiltration F cells pond infl irr appEff bunds zBund dp0 ro0 gs ≠ .error "E:unbound" := by
+  unfold infiltration
+  simp only []
+  split_ifs
+  · have := infSurface_ne_unbound (cells.head?.map (·.c.ksat)) pond
+      (infIntake infl irr appEff gs) zBund bunds
+    cases hs : infSurface (cells.head?.map (·.c.ksat)) pond (infIntake infl irr appEff gs)
+      bunds zBund with
+    | error e => rw [hs] at this; simpa using this
+    | ok s => simp
+  · simp
+
+/-- On a non-empty profile with a non-negative irrigation term the call succeeds. -/
 theorem infiltration_isOk (F : Fn α) (c : Cell α) (cs : List (Cell α))
     (pond infl irr appEff zBund dp0 ro0 : α) (bunds gs : Bool)
-    (hirr : gs = true → 0 ≤ irr * (appEff / 100)) (hb : bunds = true → 0.001 < zBund) :
+    (hirr : gs = true → 0 ≤ irr * (appEff / 100)) :
     ∃ out, infiltration F (c :: cs) pond infl irr appEff bunds zBund dp0 ro0 gs = .ok out := by
   have hI : 0 ≤ infIntake infl irr appEff gs := by
     rw [infIntake_eq, pmax_eq]
@@ -803,11 +874,15 @@ theorem infiltration_isOk (F : Fn α) (c : Cell α) (cs : List (Cell α))
     · simp
     · have := hirr rfl; simp only [if_true]; linarith
   unfold infiltration
-  simp only [hI, if_true, List.head?_cons, Option.map_some, infSurface]
-  cases bunds
-  · simp only [Bool.false_eq_true, if_false]
+  simp only [hI, if_true, List.head?_cons, Option.map_some, infSurface, noBunds]
+  by_cases h1 : bunds = true ∧ (0.001 : α) < zBund
+  · simp only [h1, and_self, if_true]
     split_ifs <;> exact ⟨_, rfl⟩
-  · simp only [hb rfl, if_true]
+  · have h2 : bunds = false ∨ zBund ≤ 0.001 := by
+      cases bunds
+      · exact Or.inl rfl
+      · exact Or.inr (not_lt.mp (fun hz => h1 ⟨rfl, hz⟩))
+    rw [if_neg h1, if_pos h2]
     split_ifs <;> exact ⟨_, rfl⟩
 
 end main
@@ -836,7 +911,7 @@ example : ∃ out, infiltration exFn [exCell, exCell] 20 30 10 90 true 100 0 0 t
     (∀ c ∈ [exCell, exCell], c.Inv) ∧ (∀ c ∈ [exCell, exCell], c.flux ≤ c.c.ksat) ∧
     (0:ℚ) ≤ 20 ∧ ((20:ℚ) ≤ 100) := by
   obtain ⟨out, h⟩ := infiltration_isOk exFn exCell [exCell] 20 30 10 90 100 0 0 true true
-    (fun _ => by norm_num) (fun _ => by norm_num)
+    (fun _ => by norm_num)
   refine ⟨out, h, ?_, ?_, by norm_num, by norm_num⟩
   · intro c hc; simp at hc; rw [hc]; exact exCell_inv
   · intro c hc; simp at hc; rw [hc]; norm_num [exCell, exComp]
@@ -855,7 +930,8 @@ end nonvacuous
 #print axioms infiltration_dry
 #print axioms infiltration_inv
 #print axioms infiltration_deepPerc_nonneg
-#print axioms infiltration_unbound
+#print axioms infiltration_low_bund
+#print axioms infiltration_ne_unbound
 #print axioms infiltration_isOk
 #print axioms backUp_storage
 #print axioms infLoop_storage
